@@ -773,6 +773,47 @@ fn check_history_resp(ctx: &mut Ctx, a: &[u8], cfga: u8, b: &[u8], cfgb: u8, cap
     }
 }
 /// C18 through the *_with_uninit_headers entry points: the earlier parse leaves `headers` pointing into its own array
+/// C16 on a REUSED value: the entry points that take an initialised array and the *_with_uninit_headers ones must agree on status and
+/// on every start-line field (also after Partial / Err, where a reused value keeps fields of the earlier call) for the same two calls.
+/// Recorded for replay like a one-step history (history_uninit = 3).
+fn check_history_cross(ctx: &mut Ctx, a: &[u8], cfga: u8, b: &[u8], cfgb: u8, cap: usize, resp: bool) {
+    ctx.evals += 1;
+    set_cur(if resp { "response" } else { "request" }, cfgb, cap, b);
+    let (pa, pb) = (mkcfg(Cfg::from_bits(cfga)), mkcfg(Cfg::from_bits(cfgb)));
+    let mut arr = vec![httparse::Header { name: SENT_NAME, value: SENT_VAL }; cap];
+    let mut u1: Vec<MaybeUninit<httparse::Header>> = (0..cap).map(|_| MaybeUninit::uninit()).collect();
+    let mut u2: Vec<MaybeUninit<httparse::Header>> = (0..cap).map(|_| MaybeUninit::uninit()).collect();
+    let mut e1: [httparse::Header; 0] = [];
+    let (real, expected, differ);
+    if !resp {
+        let mut x = httparse::Request::new(&mut arr[..]);
+        let _ = pa.parse_request(&mut x, a);
+        let cap_now = x.headers.len();       // a Complete first call leaves the array shrunk to its headers: same capacity for both
+        let r1 = pb.parse_request(&mut x, b);
+        let mut y = httparse::Request::new(&mut e1);
+        let _ = pa.parse_request_with_uninit_headers(&mut y, a, &mut u1);
+        let r2 = pb.parse_request_with_uninit_headers(&mut y, b, &mut u2[..cap_now]);
+        differ = outcome_of(r1) != outcome_of(r2) || x.method != y.method || x.path != y.path || x.version != y.version;
+        real = format!("parse_request after {:?}: {:?} method={:?} path={:?} version={:?}", String::from_utf8_lossy(a), r1, x.method, x.path, x.version);
+        expected = format!("parse_request_with_uninit_headers after the same call: {:?} method={:?} path={:?} version={:?}", r2, y.method, y.path, y.version);
+    } else {
+        let mut x = httparse::Response::new(&mut arr[..]);
+        let _ = pa.parse_response(&mut x, a);
+        let cap_now = x.headers.len();
+        let r1 = pb.parse_response(&mut x, b);
+        let mut y = httparse::Response::new(&mut e1);
+        let _ = pa.parse_response_with_uninit_headers(&mut y, a, &mut u1);
+        let r2 = pb.parse_response_with_uninit_headers(&mut y, b, &mut u2[..cap_now]);
+        differ = outcome_of(r1) != outcome_of(r2) || x.version != y.version || x.code != y.code || x.reason != y.reason;
+        real = format!("parse_response after {:?}: {:?} version={:?} code={:?} reason={:?}", String::from_utf8_lossy(a), r1, x.version, x.code, x.reason);
+        expected = format!("parse_response_with_uninit_headers after the same call: {:?} version={:?} code={:?} reason={:?}", r2, y.version, y.code, y.reason);
+    }
+    if differ {
+        unsafe { HIST = Some((a.to_vec(), cfga, 3)); }
+        ctx.add(Finding { stage: "any", gen: "", family: if resp { "response" } else { "request" }, oracle: "history".into(),
+            entry: "entry points compared on a reused value".into(), cfg: cfgb, cap, input: b.to_vec(), real, expected });
+    }
+}
 fn check_history_uninit(ctx: &mut Ctx, a: &[u8], cfga: u8, b: &[u8], cfgb: u8, cap: usize, resp: bool) {
     ctx.evals += 1;
     set_cur(if resp { "response" } else { "request" }, cfgb, cap, b);
@@ -824,8 +865,8 @@ fn search_history(ctx: &mut Ctx) {
         for a in &reqs { for b in &reqs { check_history_req(ctx, a, ca, b, cb, cap); } }
         for a in &resps { for b in &resps { check_history_resp(ctx, a, ca, b, cb, cap); } }
         if ca == cb || ca == 0 {
-            for a in &reqs { for b in &reqs { check_history_uninit(ctx, a, ca, b, cb, cap, false); } }
-            for a in &resps { for b in &resps { check_history_uninit(ctx, a, ca, b, cb, cap, true); } }
+            for a in &reqs { for b in &reqs { check_history_uninit(ctx, a, ca, b, cb, cap, false); check_history_cross(ctx, a, ca, b, cb, cap, false); for k in [1usize, 2, 5, 9] { if k < b.len() { check_history_cross(ctx, a, ca, &b[..k], cb, cap, false); } } } }
+            for a in &resps { for b in &resps { check_history_uninit(ctx, a, ca, b, cb, cap, true); check_history_cross(ctx, a, ca, b, cb, cap, true); for k in [1usize, 7, 10, 13] { if k < b.len() { check_history_cross(ctx, a, ca, &b[..k], cb, cap, true); } } } }
         }
     } } }
     // probes derived from the history itself: the same bytes with one byte inserted / replaced at every position (a value that
@@ -1011,6 +1052,8 @@ fn main() {
             // a history finding: earlier buffer, its config bits, entry-point flavour
             let (hb, hc, hu) = (unhex(&args[6]), args[7].parse::<u8>().unwrap(), args[8].parse::<u8>().unwrap());
             match (args[2].as_str(), hu) {
+                ("request", 3) => check_history_cross(&mut ctx, &hb, hc, &buf, cfgb, cap, false),
+                ("response", 3) => check_history_cross(&mut ctx, &hb, hc, &buf, cfgb, cap, true),
                 ("request", 2) => check_history_multi(&mut ctx, false, &hb, &buf, hc as usize, cfgb, cap),
                 ("response", 2) => check_history_multi(&mut ctx, true, &hb, &buf, hc as usize, cfgb, cap),
                 ("request", 0) => check_history_req(&mut ctx, &hb, hc, &buf, cfgb, cap),
